@@ -160,7 +160,7 @@ def charge(ctx, db):
         if not bad and (nreg == 0 or nref == 0):
             bad = ('charge lost its outcomes', [])
         ctx.ob(rid, f, f['key'], bad is None, 'store self-reference, then subscribe; clear iff refused' + ('' if not bad else ' -- ' + bad[0]), desc=bad[0] if bad else None, trace=fmt_trace(bad[1]) if bad and bad[1] else None)
-    lams = lambdas_of(db, 'cocls::shared_future::resolve_cb::charge')
+    lams = resume_bodies(db, 'cocls::shared_future::resolve_cb::charge')
     if not lams:
         raise Broken('tracer resume function not found')
     lf = lams[0]
